@@ -469,6 +469,7 @@ def shard(arg):
     res = Result()
     lines, meta = [], []
     ex_lines, ex_meta = [], []
+    ws_lines, ws_meta = [], []
     for _ in range(n):
         profile, knobs = pick_profile(rng)
         js = G.gen_stream(rng, **knobs)
@@ -476,6 +477,13 @@ def shard(arg):
         res.count('events', len(js))
         dt = rng.choice(DOCTYPE_OPTS)
         dropd = rng.random() < 0.6
+        if G.lean_char_ok(js):
+            # (d) WhitespaceFilter as a function on the forest against the real filter objects of the serializers
+            # (the filter is total: every generated stream, inside the round trip's domain or not; xml = the filter
+            # as the xml serializer configures it: no preserve table, CDATA flag on)
+            for wm in ('html', 'xhtml', 'xml'):
+                ws_lines.append(proto.line(Atom('C08'), Atom('wsforest'), Atom(wm), G.to_wire(js)))
+                ws_meta.append((js, wm))
         for method in ('html', 'xhtml'):
             why = in_domain(js, method, {'doctype': dt})
             if why:
@@ -483,14 +491,15 @@ def shard(arg):
                 if why not in ('attr-ws', 'text-cr'):
                     continue
             for strip in (False, True):
-                if strip and has_xml_space(js):
-                    continue
                 case = {'stream': js, 'method': method, 'strip': strip, 'cache': rng.random() < 0.7,
                         'doctype': dt, 'drop_xml_decl': dropd}
                 if method == 'xhtml' and rng.random() < 0.25:
                     case['nsprefixes'] = True
                     res.count('option:namespace_prefixes')
-                if not why:
+                # xml:space="preserve" is not visible in html output: the oracle (which compares modulo the
+                # whitespace normal form by looking at the re-parsed tree) takes such streams with strip off only;
+                # the model / reader / expect correspondences take them in both settings
+                if not why and not (strip and has_xml_space(js)):
                     res.evaluations += 1
                     res.count('oracle:%s:%s' % (method, 'strip' if strip else 'nostrip'))
                     f = oracle_case(case)
@@ -505,9 +514,14 @@ def shard(arg):
                 if G.lean_char_ok(js):
                     lines.append(outlib.model_render_line(js, cfg_of(case)))
                     meta.append(case)
-                    if not strip:
-                        ex_lines.append(expect_line(case))
-                        ex_meta.append((case, why))
+                    ex_lines.append(expect_line(case))
+                    ex_meta.append((case, why))
+                    if profile.startswith('mixed-ns') and (dt is not None or not dropd):
+                        # the mixed-namespace tree theorems are stated without a doctype option: one more
+                        # comparison of their right-hand side with the parsers, in that configuration
+                        case2 = dict(case, doctype=None, drop_xml_decl=True)
+                        ex_lines.append(expect_line(case2))
+                        ex_meta.append((case2, in_domain(js, method, {'doctype': None})))
         if len(res.samples) < 2:
             res.samples.append({'stream': js, 'profile': profile})
     answers = proto.run_lines(lines)
@@ -540,30 +554,128 @@ def shard(arg):
             res.count('expect:' + ans)
             continue
         v = reader_answer(ans)
+        tag = case['method'] + (':strip' if case['strip'] else '')
         if isinstance(v, list) and len(v) == 2 and v[0] == 'out':
-            res.count('expect:outside:%s:%s' % (case['method'], v[1]))
+            res.count('expect:outside:%s:%s' % (tag, v[1]))
             if not why:
-                res.count('expect:outside-but-in-oracle-domain:%s' % case['method'])
+                res.count('expect:outside-but-in-oracle-domain:%s' % tag)
             continue
         if not (isinstance(v, list) and len(v) == 2 and v[0] == 'ok'):
             res.disagreements.append({'stream': 'expect', 'case': case, 'model': repr(ans)[:300], 'real': 'ok/out answer'})
             continue
         real = outlib.render(case['stream'], cfg_of(case))
         res.streams['expect'] = res.streams.get('expect', 0) + 1
-        res.count('expect:inside:%s' % case['method'])
+        res.count('expect:inside:%s' % tag)
         if not why:
-            res.count('expect:inside-and-in-oracle-domain:%s' % case['method'])
+            res.count('expect:inside-and-in-oracle-domain:%s' % tag)
+        if case['strip']:
+            for ft in ws_features(case['stream']):
+                res.count('expect:strip-inside:' + ft)
+        if not case['strip'] and any(e[0] == 'T' and e[2] for e in case['stream']):
+            # `html_roundtrip_doc_markup_partial` / `xhtml_roundtrip_doc_readxml_markup_partial`
+            res.count('expect:inside-markup-text:%s' % case['method'])
+        if 'mixed-namespaces' in features(case['stream']):
+            # `html_roundtrip_tree_mixed_partial` / `xhtml_roundtrip_tree_mixed_tokens_partial` (+ the Lean xmlView)
+            res.count('expect:inside-mixed-namespaces:%s' % case['method'])
         realtoks = reader_canon(observed_tokens(real, case['method']), case['method']) if isinstance(real, str) else real
         if v[1] != realtoks:
             res.disagreements.append({'stream': 'expect', 'case': dict(case, output=real), 'model': repr(v[1])[:800],
                                       'real': repr(realtoks)[:800]})
+    # (d) the forest function of WhitespaceFilter (`wsForest`, theorem `wsfilter_forest`) against the real filter
+    for (js, method), ans in zip(ws_meta, proto.run_lines(ws_lines)):
+        if ans in ('bad-op', 'unmodelled'):
+            res.count('wsforest:' + ans)
+            continue
+        v = reader_answer(ans)
+        if isinstance(v, list) and len(v) == 2 and v[0] == 'out':
+            res.count('wsforest:outside:%s' % v[1])
+            continue
+        real = real_wsfilter(js, method)
+        res.streams['wsforest'] = res.streams.get('wsforest', 0) + 1
+        res.count('wsforest:method:' + method)
+        for ft in ws_features(js):
+            res.count('wsforest:' + ft)
+        if not (isinstance(v, list) and len(v) == 4 and v[0] == 'ok'):
+            res.disagreements.append({'stream': 'wsforest', 'case': {'stream': js, 'method': method},
+                                      'model': repr(ans)[:300], 'real': 'ok answer'})
+            continue
+        res.count('wsforest:inside-strip-domain' if v[2] == 'T' else 'wsforest:outside-strip-domain')
+        realv = wire_value(real)
+        if v[1] != realv:
+            res.disagreements.append({'stream': 'wsforest', 'case': {'stream': js, 'method': method, 'strip': True},
+                                      'model': repr(v[1])[:800], 'real': repr(realv)[:800]})
     return res
 
 
 def expect_line(case):
     cfg = cfg_of(case)
-    return proto.line(Atom('C08'), Atom('expect'), Atom(case['method']), outlib.B(cfg['drop_xml_decl']),
-                      outlib.doctype_wire(cfg.get('doctype')), G.to_wire(case['stream']))
+    return proto.line(Atom('C08'), Atom('expect'), Atom(case['method']), outlib.B(cfg['strip']),
+                      outlib.B(cfg['drop_xml_decl']), outlib.doctype_wire(cfg.get('doctype')),
+                      G.to_wire(case['stream']))
+
+
+def real_wsfilter(js, method):
+    """what the serializer's own EmptyTagFilter + WhitespaceFilter objects deliver for the stream (JSON form,
+    EMPTY events written as START + END); ('err', name) when they raise"""
+    from genshi import output
+    from genshi.core import START, END
+    ser = output.get_serializer(method, strip_whitespace=True)
+    flt = [f for f in ser.filters if isinstance(f, (output.EmptyTagFilter, output.WhitespaceFilter))]
+    if len(flt) != 2 or not isinstance(flt[1], output.WhitespaceFilter):
+        return ('err', 'filter-chain')
+    try:
+        stream = iter(G.to_events(js))
+        for f in flt:
+            stream = f(stream)
+        evs = []
+        for ev in stream:
+            if ev[0] is output.EmptyTagFilter.EMPTY:
+                evs.append((START, ev[1], ev[2]))
+                evs.append((END, ev[1][0], ev[2]))
+            else:
+                evs.append(ev)
+        return G.from_events(evs)
+    except Exception as e:  # noqa
+        return ('err', type(e).__name__)
+
+
+def wire_value(js):
+    """JSON form -> the value `proto.dec` gives for the same stream on the wire"""
+    if isinstance(js, tuple):
+        return list(js)
+    return json.loads(json.dumps(proto.dec(proto.line(G.to_wire(js)))))
+
+
+def ws_features(js):
+    """what the whitespace filter has to get right on this stream"""
+    f = set()
+    stack = []
+    prev = None
+    for e in js:
+        if e[0] == 'S':
+            stack.append(e[1][1])
+            if e[1][1] in G.PRESERVE:
+                f.add('preserve-elem')
+            if any(a == [G.XMLNS, 'space'] for a, _ in e[2]):
+                f.add('xml-space')
+        elif e[0] == 'E':
+            if stack:
+                stack.pop()
+        elif e[0] == 'T':
+            if prev == 'T':
+                f.add('adjacent-text')
+            if e[2]:
+                f.add('markup-text')
+            if any(t in G.PRESERVE for t in stack):
+                f.add('text-in-preserved-space')
+            if stack and stack[-1] in G.RAWTEXT:
+                f.add('text-in-rawtext')
+            if outlib.norm_ws(e[1]) != e[1]:
+                f.add('text-changed-by-normal-form')
+        elif e[0] in ('SC', 'EC'):
+            f.add('cdata')
+        prev = e[0]
+    return sorted(f)
 
 
 def reader_answer(ans):
